@@ -7,6 +7,7 @@ verus! {
 //@include prelude/fd.rs
 //@include prelude/path.rs
 //@include prelude/error.rs
+//@include prelude/pathspec.rs
 //@include prelude/dir.rs
 
 //@broadcast-here
